@@ -409,7 +409,7 @@ pub struct RunShape {
 }
 
 pub fn gen_shape(r: &mut Rng, thorough: bool) -> RunShape {
-    let big = r.chance(1, if thorough { 40 } else { 150 });
+    let big = r.chance(1, if thorough { 100 } else { 150 });
     let marathon = !big && r.chance(1, 150);
     let history = !big && !marathon && r.chance(1, 20);
     let max_frames = if thorough && r.chance(1, 4) { 20 } else { 8 };
